@@ -127,6 +127,14 @@ CHECKS = {
         "geographic as WKT, projected, projected as WKT} x geometry kinds, n-ary operations, bounding-box and GeoBox operations, and depth-2 chains; the real operations are executed and TLC requires: "
         "differing classes (incl. exactly one none) => a ValueError and no result; equal classes (incl. another spelling) => the same outcome and value as shapely on the raw shapes, tagged with the operands' CRS.",
    ref="5/C01", note=TB + "shapely on the raw shapes is the oracle the property names; kind pairs shapely itself refuses are skipped in the mismatch clause"),
+ "C07": dict(
+   technique="TLA+ densification model and contract in exact integer arithmetic on lattice geometries (Densify) checked by TLC; real segmented()/to_crs() results validated by TLC (structure, retained/added vertices, edge lengths); real EPSG pairs against a pyproj oracle table",
+   text="Geometries of all kinds are built from edges of integer length (axes, 3-4-5, 5-12-13) so every interpolated vertex is on the 1/65 lattice; TLC checks that the densification model meets "
+        "the contract (original vertices retained in order, added vertices strictly on their edge in order, no edge longer than the resolution) for every path of every geometry x position x resolution, and emits the cases. "
+        "The real Geometry.segmented and to_crs (exact-translation CRS family with and without densification, same CRS in another spelling => identical object, no CRS => ValueError) are executed and TLC "
+        "evaluates the same contract plus unchanged type / ring and part structure on the logged coordinates, exactly. For 6 real EPSG pairs TLC decides the structure, vertex images and the there-and-back "
+        "clause rest on a logged pyproj oracle.",
+   ref="5/C07", note=TB + "pyproj is the oracle for real projections (the statement names the projection library); accuracy off the lattice is not covered"),
 }
 
 NOT_YET = "check not built yet (work in progress); see DESIGN.md"
